@@ -42,6 +42,10 @@ def dir_grids(seed, tier):
         d0 = starts[(seed + k) % len(starts)]
         assert d0 < dd
         out.append(("full%d_%g" % (nd, d0), [d0 + dd * j for j in range(nd)], True))
+    # full circles labelled outside [0, 360): the [-180, 180) convention, north written as 360, an unwrapped record
+    out.append(("full12_-180", [-180.0 + 30.0 * j for j in range(12)], True))
+    out.append(("full9_40..360", [40.0 * j for j in range(1, 10)], True))
+    out.append(("full4_200..470", [200.0 + 90.0 * j for j in range(4)], True))
     out.append(("part_0_90", [0.0, 30.0, 60.0, 90.0], False))
     out.append(("part_200_340", [200.0 + 20.0 * j for j in range(8)], False))
     out.append(("part_3of4", [5.0, 95.0, 185.0], False))  # one bin short of a full circle
@@ -52,7 +56,7 @@ def dir_grids(seed, tier):
         out.append(("part_0_337.5_gap", [22.5 * j for j in range(16) if j != 7], False))  # irregular: one bin missing inside
     for name, d, circ in out:
         a = np.asarray(d)
-        assert np.array_equal(a.astype(np.float32).astype(np.float64), a) and (a >= 0).all() and (a < 360).all()
+        assert np.array_equal(a.astype(np.float32).astype(np.float64), a) and (a >= -180).all() and (a < 720).all()
         assert circ == oracle_full_circle(d)
     return out
 
